@@ -240,36 +240,84 @@ func checkSetIsIota(w *World, r *Result) {
 	if len(stores) == 0 {
 		Undecided("setIsIota never stores IsIota")
 	}
-	// the member loop
-	var loop *ast.RangeStmt
+	// the member loops (the test may be written as one pass over the members or as several): the bookkeeping loop is
+	// the one that records the values in a set
+	var loops []*ast.RangeStmt
 	ast.Inspect(fi.Decl.Body, func(x ast.Node) bool {
-		if rs, ok := x.(*ast.RangeStmt); ok && strings.HasSuffix(es(rs.X), ".Members") && loop == nil {
-			loop = rs
+		if rs, ok := x.(*ast.RangeStmt); ok && strings.HasSuffix(es(rs.X), ".Members") {
+			loops = append(loops, rs)
 		}
 		return true
 	})
-	if loop == nil {
+	if len(loops) == 0 {
 		Undecided("setIsIota: no loop over Members")
 	}
-	member := objOf(info, identOf(loop.Value))
-	msub := map[types.Object]string{member: "$m"}
+	var loop *ast.RangeStmt
+	msub := map[types.Object]string{}
+	for _, l := range loops {
+		if id := identOf(l.Value); id != nil {
+			msub[objOf(info, id)] = "$m"
+		}
+	}
 	// facts inside the loop: find the statements updating the "seen"/max bookkeeping: map store keyed by the value
 	var seenStore *ast.AssignStmt
 	var seenMap, valVar types.Object
-	ast.Inspect(loop.Body, func(x ast.Node) bool {
-		as, ok := x.(*ast.AssignStmt)
-		if !ok || len(as.Lhs) != 1 {
+	for _, l := range loops {
+		ast.Inspect(l.Body, func(x ast.Node) bool {
+			as, ok := x.(*ast.AssignStmt)
+			if !ok || len(as.Lhs) != 1 {
+				return true
+			}
+			if ix, ok := as.Lhs[0].(*ast.IndexExpr); ok {
+				if _, isMap := info.TypeOf(ix.X).Underlying().(*types.Map); isMap {
+					seenStore = as
+					seenMap = objOf(info, identOf(ix.X))
+					valVar = objOf(info, identOf(ix.Index))
+					loop = l
+				}
+			}
 			return true
-		}
-		if ix, ok := as.Lhs[0].(*ast.IndexExpr); ok {
-			if _, isMap := info.TypeOf(ix.X).Underlying().(*types.Map); isMap {
-				seenStore = as
-				seenMap = objOf(info, identOf(ix.X))
-				valVar = objOf(info, identOf(ix.Index))
+		})
+	}
+	if loop == nil {
+		loop = loops[0]
+	}
+	// the value may come from a slice filled by an earlier pass over the same members (`values[i] = v` … `v :=
+	// values[i]`, both indexed by the range index): what dominates that store holds for the value read back
+	valAlias := map[types.Object]bool{}
+	if valVar != nil {
+		valAlias[valVar] = true
+	}
+	var earlierStore *ast.AssignStmt
+	if valVar != nil && identOf(loop.Key) != nil {
+		for _, d := range defsIn(info, fi.Decl, valVar) {
+			ix, ok := ast.Unparen(d).(*ast.IndexExpr)
+			if !ok || identOf(ix.Index) == nil || objOf(info, identOf(ix.Index)) != objOf(info, identOf(loop.Key)) || identOf(ix.X) == nil {
+				continue
+			}
+			slice := objOf(info, identOf(ix.X))
+			for _, l := range loops {
+				if l == loop || l.Pos() > loop.Pos() || identOf(l.Key) == nil {
+					continue
+				}
+				ast.Inspect(l.Body, func(x ast.Node) bool {
+					as, ok := x.(*ast.AssignStmt)
+					if !ok || len(as.Lhs) != 1 || len(as.Rhs) != 1 {
+						return true
+					}
+					lx, ok := as.Lhs[0].(*ast.IndexExpr)
+					if !ok || identOf(lx.X) == nil || objOf(info, identOf(lx.X)) != slice || identOf(lx.Index) == nil || objOf(info, identOf(lx.Index)) != objOf(info, identOf(l.Key)) {
+						return true
+					}
+					if w := identOf(as.Rhs[0]); w != nil {
+						valAlias[objOf(info, w)] = true
+						earlierStore = as
+					}
+					return true
+				})
 			}
 		}
-		return true
-	})
+	}
 	for _, st := range stores {
 		tv := info.Types[st.Rhs[0]]
 		if tv.Value == nil || !constant.BoolVal(tv.Value) {
@@ -378,6 +426,11 @@ func checkSetIsIota(w *World, r *Result) {
 		Undecided("setIsIota: no bookkeeping map store found in the member loop")
 	}
 	conds := pathConds(fi.Decl, seenStore)
+	if earlierStore != nil {
+		// an early `continue` of the earlier pass would leave the slot at zero: only exits that end the test count,
+		// which endsTest below requires anyway
+		conds = append(conds, pathConds(fi.Decl, earlierStore)...)
+	}
 	var rendered []string
 	expOK, negOK, okOK, dupOK := false, false, false, false
 	skipWhy := "the non-negative/int64 test of each member no longer dominates the bookkeeping"
@@ -402,7 +455,7 @@ func checkSetIsIota(w *World, r *Result) {
 			_, isRet := c.exit.Body.List[len(c.exit.Body.List)-1].(*ast.ReturnStmt)
 			return isRet
 		}
-		if be, ok := c.expr.(*ast.BinaryExpr); ok && !c.truth && be.Op == token.LSS && es(be.Y) == "0" && identOf(be.X) != nil && objOf(info, identOf(be.X)) == valVar {
+		if be, ok := c.expr.(*ast.BinaryExpr); ok && !c.truth && be.Op == token.LSS && es(be.Y) == "0" && identOf(be.X) != nil && valAlias[objOf(info, identOf(be.X))] {
 			negOK = endsTest()
 			if !negOK {
 				skipWhy = "a negative member is skipped instead of ending the test"
@@ -410,7 +463,7 @@ func checkSetIsIota(w *World, r *Result) {
 		}
 		if id := identOf(c.expr); id != nil && c.truth && id.Name != "" {
 			// ok of `v, ok := member.int64()`
-			if isOkOfInt64(info, loop, id) {
+			if isOkOfInt64(info, fi.Decl.Body, id) {
 				if endsTest() {
 					okOK = true
 				} else {
@@ -462,9 +515,9 @@ func checkSetIsIota(w *World, r *Result) {
 	checkSortHelper(w, r)
 }
 
-func isOkOfInt64(info *types.Info, loop *ast.RangeStmt, id *ast.Ident) bool {
+func isOkOfInt64(info *types.Info, scope ast.Node, id *ast.Ident) bool {
 	res := false
-	ast.Inspect(loop.Body, func(x ast.Node) bool {
+	ast.Inspect(scope, func(x ast.Node) bool {
 		as, ok := x.(*ast.AssignStmt)
 		if !ok || len(as.Lhs) != 2 || len(as.Rhs) != 1 {
 			return true
